@@ -193,6 +193,22 @@ pub trait Wrapped {
     fn wrapped(&self) -> Self::Ret;
 }
 cglue_trait_group!(GenGroup<T>, GenT<T>, { Wrapped });
+// traits listed in a group together with bindings for several associated types, written out of name order
+#[cglue_trait]
+pub trait Conv {
+    type In;
+    type Out;
+    fn conv(&self, i: Self::In) -> Self::Out;
+}
+#[cglue_trait]
+pub trait Tri {
+    type A;
+    type B;
+    type C;
+    fn tri(&self, a: Self::A, b: Self::B) -> Self::C;
+}
+cglue_trait_group!(PairG, Conv<Out = u64, In = u8>, { Tri<C = u32, A = u8, B = u16> });
+pub extern "C" fn p_pairg(_o: PairGBox<'static>) {}
 pub extern "C" fn p_gengroup(_o: GenGroupBox<'static, u64>) {}
 pub extern "C" fn p_gent(_o: GenTBox<'static, u64>) {}
 pub extern "C" fn p_gent2(_o: GenTMut<'static, P2>) {}
